@@ -6,5 +6,3 @@ import "qedverif/lib"
 var Workers = map[string]func(args []string) int{}
 
 func RunC11(c *lib.Ctx) { c.Inconclusive("C11: check not built yet") }
-
-func RunC12(c *lib.Ctx) { c.Inconclusive("C12: check not built yet") }
